@@ -254,6 +254,28 @@ muggle_socket_evloop_handle_init_except:
 
 void muggle_socket_evloop_handle_destroy(muggle_socket_evloop_handle_t *handle)
 {
+	// contexts handed over (muggle_socket_evloop_add_ctx) after on_exit has
+	// drained the queue are owned by nobody: release them here instead of
+	// dropping the queue nodes and leaking the contexts
+	if (handle->ctx_queue)
+	{
+		while (muggle_queue_size(handle->ctx_queue) > 0)
+		{
+			muggle_queue_node_t *node = muggle_queue_front(handle->ctx_queue);
+			muggle_socket_context_t *ctx = (muggle_socket_context_t*)node->data;
+			if (muggle_socket_ctx_ref_release(ctx) == 0)
+			{
+				if (handle->cb_release)
+				{
+					handle->cb_release(handle->evloop, ctx);
+				}
+				muggle_socket_ctx_close(ctx);
+				handle->cb_free(handle->mempool, ctx);
+			}
+			muggle_queue_dequeue(handle->ctx_queue, NULL, NULL);
+		}
+	}
+
 	if (handle->mtx)
 	{
 		muggle_mutex_destroy(handle->mtx);
@@ -274,6 +296,7 @@ void muggle_socket_evloop_handle_attach(
 	muggle_event_loop_t *evloop)
 {
 	evloop->sys_data = (void*)handle;
+	handle->evloop = evloop;
 	muggle_evloop_set_timer_interval(evloop, handle->timeout);
 	muggle_evloop_set_cb_read(evloop, muggle_socket_evloop_on_read);
 	muggle_evloop_set_cb_close(evloop, muggle_socket_evloop_on_close);
